@@ -172,7 +172,7 @@ Theorem imp_Fasta_Write fuel r : (length (Fasta.seq r) < fuel)%nat ->
 Proof.
   intros Hf. unfold imp_fasta_Fasta_Write, fa_of. cbn [imp_fasta_Fasta_Name imp_fasta_Fasta_Sequence snd]. cbv zeta.
   cbn [after].
-  change (go_while fuel _ _ (0, ?o)) with (go_while fuel (fa_cond (Fasta.seq r)) (fa_body (Fasta.seq r)) (0, o)).
+  timeout 120 (change (go_while fuel _ _ (0, ?o)) with (go_while fuel (fa_cond (Fasta.seq r)) (fa_body (Fasta.seq r)) (0, o))).
   destruct (fa_loop (Fasta.seq r) fuel 0 ([] ++ [[62%N] ++ Fasta.name r ++ [10%N]]) (length (Fasta.seq r))) as (i' & Hi');
     [lia|cbn [Z.to_nat skipn]; lia|cbn [Z.to_nat skipn]; lia|].
   rewrite Hi'. cbn [after Z.to_nat skipn app]. reflexivity.
